@@ -32,14 +32,17 @@ SignKey(e) ==
     LET f   == [alg |-> e.alg, exp |-> e.exp, inc |-> e.inc, keytag |-> e.keytag, signer |-> p.labels]
         rs  == SigRdataSans(f)
         L   == Len(e.msg)
-        flt == IF e.ok THEN LayoutFault(e.msg, f, e.out) ELSE ":none"
+        lf  == IF e.ok THEN LayoutFault(e.msg, f, e.out) ELSE ":none"
+        \* the signature field holds one signature of the algorithm's length (RFC 3110 / 6605 / 8080): e.siglen octets
+        flt == IF lf = "" /\ Len(e.out) - (L + 11 + Len(rs)) # e.siglen THEN ":signature-length" ELSE lf
         rsOut == IF flt = "" THEN Sub(e.out, L + 12, L + 11 + Len(rs)) ELSE rs     \* the RDATA as sent (AMBIG: case of the signer)
     IN IF EmitX([id |-> e.id, kind |-> "sign", hash |-> SigHash(e.alg), realok |-> (flt = ""),
                  signed |-> SignedOctets(e.msg, rsOut), sigoff |-> L + 11 + Len(rs),
                  specout |-> Output(e.msg, rs, Zeros(e.siglen)), specsigned |-> SignedOctets(e.msg, rs),
                  regions |-> Regions(e.msg, rs, e.siglen)])
        THEN IF ~e.ok THEN "sig0/sign-" \o e.errclass \o (IF e.compress THEN "-compressed" ELSE "")
-            ELSE IF flt = "" THEN "" ELSE "sig0/sign-layout" \o flt
+            ELSE IF flt # "" THEN (IF e.reused /\ flt = ":signature-length" THEN "sig0/sign-reused-sig-struct" ELSE "sig0/sign-layout" \o flt)
+            ELSE ""
        ELSE "trace/emit"
 
 VerifyKey(e) ==
